@@ -74,7 +74,7 @@ package redis
 //@   properties C19
 //@   replay cluster_redirect
 //@   requires nonnil: node != nil
-//@   modifies heap, cSent, cRecv
+//@   modifies cSent, cRecv
 //@   ensures unsent_command_is_an_error_reply: result1 == nil && cSent == old(cSent) ==> hastype(result0, "common.RedisError")
 //@   ensures at_most_one_submission: cSent <= old(cSent) + 1 && cSent >= old(cSent)
 
@@ -106,7 +106,7 @@ func SpecErrorValued(reply interface{}) bool { return false }
 //@   ensures a_node_or_an_error: result1 == nil ==> result0 != nil
 //@ func Cluster.handleConnTimeout
 //@   trusted here (read, not verified): retries on another node; a still-unreachable cluster is answered with an error value
-//@   modifies heap, cSent, cRecv
+//@   modifies cSent, cRecv
 //@   ensures submitted_or_reported: result1 == nil ==> cSent > old(cSent) || reportedReply(result0)
 //@   ensures monotone: cSent >= old(cSent)
 
@@ -115,7 +115,7 @@ func SpecErrorValued(reply interface{}) bool { return false }
 //@   properties C19
 //@   opaque SpecRedirectClass
 //@   requires nonnil: cluster != nil && node != nil
-//@   modifies heap, cSent, cRecv
+//@   modifies cSent, cRecv
 //@   ensures success_means_submitted: result1 == nil ==> cSent > old(cSent) || reportedReply(result0)
 //@   ensures monotone: cSent >= old(cSent)
 
@@ -125,7 +125,7 @@ func SpecErrorValued(reply interface{}) bool { return false }
 //@   opaque SpecRedirectClass
 //@   replay cluster_redirect
 //@   requires nonnil: cluster != nil && node != nil
-//@   modifies heap, cSent, cRecv
+//@   modifies cSent, cRecv
 //@   ensures plain_reply_is_handed_back: isPlain(reply) ==> result0 == reply && result1 == nil && cSent == old(cSent)
 //@   ensures redirect_is_retried_or_reported: (isMoved(reply) || isAsk(reply)) && result1 == nil ==> cSent > old(cSent) || reportedReply(result0)
 //@   ensures error_reply_never_becomes_success: hastype(reply, "common.RedisError") && result1 == nil ==> cSent > old(cSent) || reportedReply(result0)
@@ -139,7 +139,7 @@ func SpecErrorValued(reply interface{}) bool { return false }
 //@   opaque SpecRedirectClass
 //@   ghost var mvCmd string = cmd
 //@   requires nonnil: cluster != nil
-//@   modifies heap, cSent, cRecv
+//@   modifies cSent, cRecv
 //@   assert at call resolveRedirectionNode: target_is_the_address_in_the_reply: len(fields) == 3 && addr == fields[2]
 //@   assert at call do: retried_once_on_the_indicated_node_with_the_same_command: arg1 == newNode && arg2 == mvCmd && cSent == old(cSent)
 //@   ensures success_means_resubmitted: result1 == nil ==> cSent > old(cSent) || reportedReply(result0)
@@ -153,7 +153,7 @@ func SpecErrorValued(reply interface{}) bool { return false }
 //@   ghost var askSent mathint = 0
 //@   set askSent = cSent at call resolveRedirectionNode
 //@   requires nonnil: cluster != nil
-//@   modifies heap, cSent, cRecv
+//@   modifies cSent, cRecv
 //@   assert at call resolveRedirectionNode: target_is_the_address_in_the_reply: len(fields) == 3 && addr == fields[2]
 //@   assert at call send: asking_then_the_same_command: (cSent == askSent ==> cmd == "ASKING" && len(args) == 0) && (cSent == askSent + 1 ==> cmd == askCmd) && cSent <= askSent + 1 && arg0 == conn
 //@   ensures success_means_resubmitted: result1 == nil ==> cSent >= old(cSent) + 2
@@ -162,6 +162,7 @@ func SpecErrorValued(reply interface{}) bool { return false }
 //@ func Batch.doBatch
 //@   arith int
 //@   properties C19
+//@   opaque SpecRedirectClass
 //@   ghost var cSent mathint = 0
 //@   ghost var cRecv mathint = 0
 //@   requires nonnil: bat != nil && batch != nil && batch.node != nil && bat.cluster != nil
